@@ -170,6 +170,12 @@ impl Pattern {
         self.prefix_regex.is_match(path)
     }
 
+    /// Returns true if this pattern ends with `**` (`.*` in a regular expression), i.e. whenever
+    /// it matches a string, it matches all extensions of that string as well.
+    pub fn matches_any_suffix(&self) -> bool {
+        self.src.ends_with(".*") && !self.src.ends_with("\\.*")
+    }
+
     /// Returns true if this pattern fully matches given file path
     pub fn matches_path(&self, path: &Path) -> bool {
         self.anchored_regex
